@@ -21,6 +21,8 @@ type ReadOnlyFS struct {
 	sourceFS  hackpadfs.FS
 	cacheFS   writableFS
 	cacheInfo sync.Map
+	// incomplete holds the names whose copy into cacheFS failed and could not be removed again
+	incomplete sync.Map
 
 	pathlock pathlock.Mutex
 	options  ReadOnlyOptions
@@ -56,7 +58,7 @@ func (fs *ReadOnlyFS) Open(name string) (hackpadfs.File, error) {
 
 	fs.pathlock.Lock(name)
 	defer fs.pathlock.Unlock(name)
-	{
+	if _, incomplete := fs.incomplete.Load(name); !incomplete {
 		// if file is in cache, return it. continue otherwise
 		f, err := fs.cacheFS.Open(name)
 		if err == nil {
@@ -78,8 +80,13 @@ func (fs *ReadOnlyFS) Open(name string) (hackpadfs.File, error) {
 	err = fs.copyFile(name, f, info)
 	if err != nil {
 		_ = f.Close()
+		// never leave a partial copy behind: later opens would serve it as the complete file
+		if removeErr := hackpadfs.Remove(fs.cacheFS, name); removeErr != nil && !errors.Is(removeErr, hackpadfs.ErrNotExist) {
+			fs.incomplete.Store(name, struct{}{})
+		}
 		return nil, err
 	}
+	fs.incomplete.Delete(name)
 	if _, seekErr := hackpadfs.SeekFile(f, 0, io.SeekStart); seekErr != nil {
 		// attempt to seek to first byte. if unsuccessful, re-open file from the cache
 		_ = f.Close()
@@ -97,14 +104,17 @@ func (fs *ReadOnlyFS) copyFile(name string, f hackpadfs.File, info hackpadfs.Fil
 	if err != nil {
 		return err
 	}
-	defer func() { _ = destFile.Close() }()
-
 	destFileWriter, ok := destFile.(io.Writer)
 	if !ok {
+		_ = destFile.Close()
 		return &hackpadfs.PathError{Op: "open", Path: name, Err: hackpadfs.ErrPermission}
 	}
 	buf := make([]byte, 512)
 	_, err = io.CopyBuffer(destFileWriter, f, buf)
+	// the copy is complete only once the cache file is closed successfully
+	if closeErr := destFile.Close(); err == nil {
+		err = closeErr
+	}
 	return err
 }
 
